@@ -268,7 +268,39 @@ def run_interleaved(pt, rng, n_ops):
         REC.begin_case({"polytope": kind, "level": 0, "history": "interleaved objects"}, cls="interleaved objects")
         objs.append([kind, cls(), 0])
     hist = []
-    for _ in range(n_ops):
+    # the cells of a hypercube are polyhedra of their own (8 nodes at +-0.5, what the plotting code reads): they are read first, and
+    # every polytope built afterwards must be unaffected
+    try:
+        for cell in pt.Cube4DPolytope().get_all_cells()[:3]:
+            cell.get_nodes()
+            cell.get_nodes(N=4)
+    except Exception as e:
+        REC.notes[f"hypercube cells could not be read ({type(e).__name__}; not judged)"] += 1
+    for step in range(n_ops):
+        if step % 15 == 7:
+            # hostile caller + fresh object: the arrays a THROW-AWAY polytope handed out are scaled in place (the pinned tree hands out its
+            # sorted-node cache, so that object itself is not asked again - what a caller does to one object's answers is outside the
+            # statement), then a NEW polytope of the same class is brought to the same level and asked, and the live objects too
+            kind, p, level = objs[rng.randrange(len(objs))]
+            REC.begin_case({"polytope": kind, "level": level, "history": "fresh object after a caller scaled another object's returned nodes"},
+                           cls="interleaved objects")
+            try:
+                scratch = type(p)()
+                for _ in range(level):
+                    scratch.divide_edges()
+                for proj in (True, False):     # the un-projected answer last: on the pinned tree it IS the object's cache
+                    arr = scratch.get_nodes(projection=proj)
+                    if isinstance(arr, np.ndarray) and arr.flags.writeable:
+                        arr *= 1.7
+                del scratch
+                fresh = type(p)()
+                for _ in range(level):
+                    fresh.divide_edges()
+                getter_history(fresh, kind, rng, 3)
+                getter_history(p, kind, rng, 2)
+            except Exception as e:
+                REC.crashed("C18.call_raised", e)
+                return
         k = rng.randrange(len(objs))
         kind, p, level = objs[k]
         REC.begin_case({"polytope": kind, "level": level, "history": "interleaved objects", "ops_so_far": hist[-12:]}, cls="interleaved objects")
